@@ -8,13 +8,27 @@ Import ListNotations.
 Open Scope string_scope.
 Open Scope list_scope.
 
+Lemma no3_suffix a b : no3 (a ++ b)%string = true -> no3 b = true.
+Proof. induction a as [|c a IH]; [auto|]. cbn [append no3]. intros H. apply andb_prop in H as [_ H]. exact (IH H). Qed.
+
+(* the bracket scanner of Model/TagShape.v on a text without "<<<": it never enters a tag *)
+Lemma tstep_no3 : forall s n, no3 (match n with 0 => "" | 1 => "<" | _ => "<<" end ++ s)%string = true -> n <= 2 ->
+  exists n', fold_string tstep s (Some (Out n, [])) = Some (Out n', []).
+Proof.
+  induction s as [|c s IH]; intros n H Hn; [exists n; reflexivity|].
+  cbn [fold_string tstep]. change TagShape.LT with "<"%char.
+  destruct (Ascii.eqb_spec c "<"%char) as [->|N].
+  - destruct n as [|[|[|n]]]; try lia.
+    + apply (IH 1); [exact H|lia].
+    + apply (IH 2); [exact H|lia].
+    + cbn in H. discriminate.
+  - apply (IH 0); [|lia]. cbn [append].
+    destruct n as [|[|n]]; [apply (no3_suffix (String c "")); exact H|apply (no3_suffix (String "<" (String c ""))); exact H|apply (no3_suffix (String "<" (String "<" (String c "")))); exact H].
+Qed.
+
 Lemma tagfree_no_generator_tag s : tagfree s = true -> no_generator_tag s = true.
 Proof.
-  unfold no_generator_tag, tags_of.
-  assert (G : forall s, tagfree s = true -> fold_string tstep s (Some (Out 0, [])) = Some (Out 0, [])).
-  { induction s0 as [|c s0 IH]; [reflexivity|]. unfold tagfree. cbn [no_char]. intros H. apply andb_prop in H as [Hc Hs].
-    apply negb_true_iff in Hc. cbn [fold_string tstep]. change TagShape.LT with Engine.LT. rewrite Hc. apply IH. exact Hs. }
-  intros H. rewrite (G s H). reflexivity.
+  unfold no_generator_tag, tags_of, tagfree. intros H. destruct (tstep_no3 s 0 H) as (n' & E); [lia|]. rewrite E. reflexivity.
 Qed.
 
 Section Shipped.
